@@ -20,6 +20,14 @@ ODD_TYPES = ["exon,CDS", "exon", "CDS", "exon, CDS", "five prime UTR", "exon ", 
 ODD_SEQIDS = ["chr1,chr2", "chr1", "chr2", "chr 1", "chr%1", "chr_1", "chrA1", "%", "_", "chr*", "c'1"]
 ODD_SOURCES = ["src", "s,t", "s t", "s%", "s_t", "sAt", "*"]
 PROBES = ["exo%", "e_on", "ex*", "exon,", ",CDS", "CDS,exon", "%%", "__", "gene_", "absent"]   # never stored
+# flavor "empty": a text column that is the empty string (a GFF line may have an empty column) next to ordinary values
+# flavor "norm":  values that differ only by Unicode normalisation form (NFC 'é' U+00E9 vs NFD 'e' + U+0301) or only in
+#                 case; all of them are different values (filters, distinct lists, counts, order by code point)
+NORM_SEQIDS = ["chr\u00e9", "chre\u0301", "Chr\u00e9", "chr\u00c9", "chrE\u0301", "CHR\u00c9", "chre", "chrf", "chr\u00e91",
+               "chre\u03011"]
+NORM_TYPES = ["caf\u00e9", "cafe\u0301", "Caf\u00e9", "CAF\u00c9", "CAFE\u0301", "cafe", "gene", "Gene", "GENE", "g\u00e8ne",
+              "ge\u0300ne"]
+NORM_SOURCES = ["\u00e5", "a\u030a", "\u00c5", "A\u030a", "\u212b", "a", "A"]
 ODD_CHARS = [(",", "a comma"), (" ", "a blank"), ("%", "a percent sign"), ("_", "an underscore"),
              ("*", "a wildcard"), ("?", "a wildcard"), ("[", "a wildcard")]
 
@@ -34,6 +42,22 @@ def make_set(seed, n, flavor=None):
         seqids = rng.sample(ODD_SEQIDS, rng.choice([3, 4, 6]))
         types = rng.sample(ODD_TYPES[:3], rng.choice([2, 3, 3])) + rng.sample(ODD_TYPES[3:], rng.choice([2, 3, 5]))
         sources = rng.sample(ODD_SOURCES, rng.choice([2, 3]))
+    elif flavor == "norm":
+        k = rng.choice([2, 2, 4])                               # the first k of each list are NFC/NFD twins
+        seqids = NORM_SEQIDS[:k] + rng.sample(NORM_SEQIDS[k:], rng.choice([1, 2, 4]))
+        types = NORM_TYPES[:2] + rng.sample(NORM_TYPES[2:], rng.choice([1, 3, 5]))
+        sources = NORM_SOURCES[:2] + rng.sample(NORM_SOURCES[2:], rng.choice([0, 1, 3]))
+    elif flavor == "empty":
+        which = rng.choice(["seqid", "source", "both", "both", "all seqids"])
+        seqids = rng.sample(SEQIDS, rng.choice([1, 2, 3]))
+        sources = rng.sample(SOURCES, rng.choice([1, 2]))
+        if which in ("seqid", "both"):
+            seqids.insert(rng.randrange(len(seqids) + 1), "")
+        if which in ("source", "both", "all seqids"):
+            sources.insert(rng.randrange(len(sources) + 1), "")
+        if which == "all seqids":
+            seqids = [""]
+        types = rng.sample(TYPES, rng.choice([2, 3, 4]))
     else:
         seqids = rng.sample(SEQIDS, rng.choice([2, 3, 4, 6]))
         types = rng.sample(TYPES, rng.choice([2, 3, 4, 6]))
@@ -66,7 +90,37 @@ def make_set(seed, n, flavor=None):
         rows.append(row)
         lines.append("\t".join(cols))
     return {"rows": rows, "text": "\n".join(lines) + "\n", "seqids": seqids, "types": types, "starts": starts,
-            "flavor": flavor}
+            "flavor": flavor, "traits": traits(rows)}
+
+
+def nfc(text):
+    import unicodedata
+
+    return unicodedata.normalize("NFC", text)
+
+
+def twins(values, fold):
+    """Pairs of different values that `fold` maps to one value."""
+    vals = sorted(set(values))
+    return [(a, b) for i, a in enumerate(vals) for b in vals[i + 1:] if fold(a) == fold(b)]
+
+
+def traits(rows):
+    """What the stored feature set holds (names of input classes)."""
+    t = []
+    for col in ("seqid", "source", "featuretype"):
+        vals = set(r[col] for r in rows)
+        if "" in vals:
+            t.append("empty %s stored" % col)
+            if len(vals) == 1:
+                t.append("every %s is empty" % col)
+        if twins(vals, nfc):
+            t.append("%ss that differ only by normalisation form (NFC/NFD) stored" % col)
+        if twins(vals, lambda v: v.lower()):
+            t.append("%ss that differ only in case stored" % col)
+        if any(ord(ch) > 127 for v in vals for ch in v):
+            t.append("non-ASCII %s stored" % col)
+    return t
 
 
 def gen_history(rng, SET):
@@ -137,7 +191,9 @@ def gen_query(rng, SET, long_ft=False):
         q["ft"], q["ft_form"] = None, None
     else:
         q["ft_form"] = rng.choice(["str", "str", "list", "tuple", "set"])
-        pool = SET["types"] + ([rng.choice(ODD_TYPES), rng.choice(PROBES)] if odd else [rng.choice(TYPES), "absent"])
+        pool = SET["types"] + ([rng.choice(ODD_TYPES), rng.choice(PROBES)] if odd else
+                               [rng.choice(NORM_TYPES), rng.choice(NORM_TYPES)] if SET.get("flavor") == "norm" else
+                               [rng.choice(TYPES), "absent"])
         k = 1 if q["ft_form"] == "str" else rng.choice([1, 2, 2, 3])
         q["ft"] = sorted(set(rng.choice(pool) for _ in range(k)))
     q["strand"] = rng.choice([None, None, None, "+", "-", "."])
@@ -162,7 +218,7 @@ def gen_query(rng, SET, long_ft=False):
         a, b = max(1, a), max(1, b)
         if a > b:
             a, b = b, a
-        q["limit"] = [rng.choice(SET["seqids"]), a, b]
+        q["limit"] = [rng.choice(SET["seqids"] + (NORM_SEQIDS[:4] if SET.get("flavor") == "norm" else [])), a, b]
         q["limit_form"] = rng.choice(["tuple", "string"])
         q["within"] = rng.random() < 0.4
     return q
